@@ -178,7 +178,8 @@ def fromNfa : P String := do
   match minify, retain with
   | false, true => pure ("ok " ++ showCanon N.toDFA true)
   | false, false => pure ("ok " ++ showCanon N.toDFA.renumber false)
-  | true, r => pure ("ok " ++ showCanon (N.toDFAMin (pickOf seed)) r)
+  | true, true => pure ("ok " ++ showCanon (N.toDFAMin (pickOf seed)) true)
+  | true, false => pure ("ok " ++ showCanon (N.toDFAMinRenum (pickOf seed)) false)
 
 def handle (cmd : String) (args : List String) : Except String String :=
   match cmd with
